@@ -344,7 +344,12 @@ fn handle_run(req: &Request, resp: &mut Response) -> bool {
             let (slots, size, _mask) = vm.verif_string_store_dump();
             resp.store = Some((size, slots.len()));
         }
-        if req.want.iter().any(|w| w == "heap") {
+        if req.want.iter().any(|w| w == "gc_then_heap") {
+            // what survives a collection while the interpreter is still alive
+            verif::set_gc_mode(GcMode::Default);
+            verif::force_collect();
+            resp.heap = Some(heap_dump());
+        } else if req.want.iter().any(|w| w == "heap") {
             resp.heap = Some(heap_dump());
         }
         verif::set_gc_mode(GcMode::Default);
